@@ -809,7 +809,7 @@ class Analysis:
 
     # -- may
     def may(self, f, ev, depth=0, stack=()):
-        key = (f.id, id(ev))
+        key = (f.id, ev)          # the Ev object itself (identity hash): the cache keeps it alive, so its identity cannot be reused by a later event
         if key in self._may:
             return self._may[key]
         if depth > MAX_DEPTH or f.id in stack:
@@ -829,7 +829,7 @@ class Analysis:
 
     # -- must: every normal path from entry to a return passes a site that must perform ev
     def must(self, f, ev, depth=0, stack=()):
-        key = (f.id, id(ev))
+        key = (f.id, ev)          # the Ev object itself (identity hash): the cache keeps it alive, so its identity cannot be reused by a later event
         if key in self._must:
             return self._must[key]
         if depth > MAX_DEPTH or f.id in stack:
